@@ -154,6 +154,8 @@ def perm_case(draw):
     case["perm"] = list(draw(st.permutations(list(range(n)))))
     case["shape"] = [n]
     case["rep"] = draw(st.sampled_from([None, None, 2, 3, 1000, 6000]))
+    if draw(st.integers(0, 39)) == 0:
+        case["rep"] = 1 + (2 ** 20 + 4000) // max(1, n)  # beyond a million cells (and not a round number of them)
     return case
 
 
@@ -182,6 +184,26 @@ def offset_cases():
                            "perm": perm, "shape": [12], "rep": None}
 
 
+def million_cell_cases():
+    """Rasters of more than a million cells (not a power of two of them) under the commands that combine several inputs:
+    the same 24 cells laid end to end, every cell computed as in the small array."""
+    vals = [-1.0, -0.5, 0.0, 0.25, 0.75, 1.0]
+    arrays = []
+    for i in range(3):
+        data = [vals[(k * (i + 2) + i * i) % 6] for k in range(24)]
+        mask = None if i != 1 else [1 if k in (5, 17) else 0 for k in range(24)]
+        arrays.append({"data": data, "mask": mask, "dtype": "float64"})
+    plans = [("FuzzyXOr", {}), ("FuzzySelectedUnion", {"TruestOrFalsest": "Truest", "NumberToConsider": 1}),
+             ("FuzzySelectedUnion", {"TruestOrFalsest": "Falsest", "NumberToConsider": 2}), ("FuzzyOr", {}), ("FuzzyAnd", {}), ("FuzzyUnion", {}),
+             ("FuzzyWeightedUnion", {"Weights": [1, 2, 0.5]}), ("Sum", {}), ("Multiply", {}), ("Minimum", {}), ("Maximum", {}), ("Mean", {}),
+             ("WeightedSum", {"Weights": [1, 2, 0.5]}), ("WeightedMean", {"Weights": [1, 2, 0.5]})]
+    for cmd, params in plans:
+        for order in ((0, 1, 2), (2, 0, 1)):
+            yield {"cmd": cmd, "params": params, "arrays": [arrays[j] for j in order], "perm": list(range(24))[::-1], "shape": [24],
+                   "rep": (2 ** 20 + 4000) // 24}
+
+
 def run_shard(ctx, rec):
     drive_enum(ctx, rec, "unit", offset_cases(), check_unit, exhaustive=True, tag="unit/large_offset")
+    drive_enum(ctx, rec, "unit", million_cell_cases(), check_unit, exhaustive=True, tag="unit/million_cells")
     drive(ctx, rec, "unit", perm_case(), check_unit, ctx.n(3000, 100000))
